@@ -127,3 +127,12 @@ PROPS['C01'] = dict(
     assumptions=[],
     domain=[],
 )
+
+PROPS['C17'] = dict(
+    title='Token groups partition the token sequence; tensorisation is faithful',
+    groups=[dict(template='c17_tensor.rs'), dict(template='c01_byte.rs')],
+    claim='',
+    not_covered=[],
+    assumptions=[],
+    domain=[],
+)
